@@ -64,3 +64,23 @@ def replay_c01(prop, path):
 
 CHECKS["C01"] = checks_sess.run_c01
 REPLAY["C01"] = replay_c01
+
+CHECKS["C08"] = checks_pure.run_c08
+
+
+def replay_c08(prop, path):
+    import checks_api
+    r = json.load(open(path))
+    vh = build_vh()
+    case = r["case"]
+    fn = checks_api.cond_api_confirm(vh) if case["key"].get("via", "").startswith("api") else checks_pure.cond_confirm(vh)
+    got, _ = fn(case)
+    if got:
+        print("VIOLATION property=%s replay=%s" % (prop, path))
+        print("  " + json.dumps(got[0])[:600])
+        return 1
+    print("replay: the recorded mismatch does not occur on this tree")
+    return 0
+
+
+REPLAY["C08"] = replay_c08
